@@ -186,7 +186,8 @@ AbsMerge(o, cnt) == IF o = <<>> THEN <<>>
                              x == xs[p][cnt[p] + 1]
                          IN <<[op |-> x.kind, p |-> x.o, q |-> x.t, tag |-> 0, len |-> LenOf(x.kind, x.cls)]>>
                             \o AbsMerge(Tail(o), [cnt EXCEPT ![p] = @ + 1])
-Abs == INSTANCE Engine WITH Tags <- {0}, AmSizes <- {8, 1000}, XferSizes <- {8, 65536}, Mixed <- TRUE,
+Abs == INSTANCE Engine WITH Tags <- {0}, AmSizes <- {LenOf("am", c) : c \in Classes}, XferSizes <- {LenOf("get", c) : c \in Classes},
+                            Mixed <- TRUE,
                             am <- AbsAm, xf <- AbsXf, nseq <- [p \in Proc |-> Len(xs[p])],
                             hist <- AbsMerge(ord, [p \in Proc |-> 0])
 Refines == Abs!Spec
